@@ -1,0 +1,36 @@
+//go:build verif
+
+package base
+
+// Contracts for core/base. Lines starting with "//@" are read by /verif/vcgo; see /verif/DESIGN.md section 3.
+
+//@ iface StatNode.CurrentConcurrency() r
+//@   pure
+//@ iface ConcurrencyStat.CurrentConcurrency() r
+//@   pure
+//@ iface ReadStat.GetSum(event) r
+//@   pure
+//@ iface ReadStat.GetQPS(event) r
+//@   pure
+//@   ensures r >= 0.0
+//@ iface ReadStat.GetPreviousQPS(event) r
+//@   pure
+//@   ensures r >= 0.0
+//@ iface ReadStat.MinRT() r
+//@   pure
+//@ iface ReadStat.AvgRT() r
+//@   pure
+
+// A block-error option only writes the block error it is applied to.
+//@ callback BlockErrorOption(b)
+//@   modifies fields(b)
+
+// Ghost view of write statistics: gAdded[receiver][event] is the total amount recorded through WriteStat.AddCount.
+// (The relation between this total and what the sliding window later reports is property C08.)
+//@ ghost var gAdded (Array Int (Array Int Int))
+//@ iface WriteStat.AddCount(event, count)
+//@   ensures gAdded == upd(old(gAdded), dynptr(this), upd(sel(old(gAdded), dynptr(this)), event, sel(sel(old(gAdded), dynptr(this)), event) + count))
+//@   modifies gAdded
+//@ iface StatNode.AddCount(event, count)
+//@   ensures gAdded == upd(old(gAdded), dynptr(this), upd(sel(old(gAdded), dynptr(this)), event, sel(sel(old(gAdded), dynptr(this)), event) + count))
+//@   modifies gAdded
